@@ -165,14 +165,6 @@ Qed.
 
 (* ==== message values at the key level ============================================================== *)
 
-Lemma mget_In m k x : mget m k = Some x -> In (k, x) m.
-Proof.
-  induction m as [|[k' v] m IH]; cbn [mget]; [discriminate|].
-  destruct (str_eqb k k') eqn:E.
-  - intros H. inversion H. subst. apply str_eqb_eq in E. subst. now left.
-  - intros H. right. now apply IH.
-Qed.
-
 Lemma mget_mset_scalar_other fs m f v k : k <> f_name f ->
   mget (mset_scalar fs m f v) k = mget m k.
 Proof.
@@ -439,27 +431,26 @@ Definition routed (rs : list sroute) (rq : raw_req) (p : str) (r : sroute) (b : 
   clean_segs (split_on slash p) = true /\
   find_route rs (rq_verb rq) (split_on slash p) = Some (r, b) /\ raw_modelled r = true.
 
+(* the message the URL values are applied to: the decoded body of a POST/PUT/PATCH, else the empty one *)
+Definition raw_start (r : sroute) (rq : raw_req) : mval + str :=
+  body_start (rt_body (sr_route r)) (rq_ct rq) (rq_body rq).
+
 Lemma raw_handle_routed rs rq p r b : routed rs rq p r b ->
   raw_handle rs rq =
-  match bind_path (sr_fields r) (rt_pathvars (sr_route r)) b [] with
+  match raw_start r rq with
   | inr f => Ok (RRejected f)
-  | inl m1 =>
-      match bind_query_raw (sr_fields r) (query_fields (sr_fields r)) (parse_query (rq_query rq)) m1 with
+  | inl m0 =>
+      match bind_path (sr_fields r) (rt_pathvars (sr_route r)) b m0 with
       | inr f => Ok (RRejected f)
-      | inl m2 =>
-          if rt_body (sr_route r) then
-            match rq_body rq with
-            | Some (f, v) =>
-                if bfmt_eqb f (server_fmt (rq_ct rq))
-                then Ok (RDispatched (md_name (sr_md r)) v)
-                else Ok (RRejected (s "body"))
-            | None => Ok (RDispatched (md_name (sr_md r)) m2)
-            end
-          else Ok (RDispatched (md_name (sr_md r)) m2)
+      | inl m1 =>
+          match bind_query_raw (sr_fields r) (query_fields (sr_fields r)) (parse_query (rq_query rq)) m1 with
+          | inr f => Ok (RRejected f)
+          | inl m2 => Ok (RDispatched (md_name (sr_md r)) m2)
+          end
       end
   end.
 Proof.
-  intros [Hp [Hu [Hc [Hf Hm]]]]. unfold raw_handle. rewrite Hp in *. cbv beta iota zeta.
+  intros [Hp [Hu [Hc [Hf Hm]]]]. unfold raw_handle, raw_start. rewrite Hp in *. cbv beta iota zeta.
   rewrite Ascii.eqb_refl. cbn [negb].
   destruct (path_unescape (slash :: p)); [|congruence].
   rewrite Hc. cbn [negb]. rewrite Hf, Hm. reflexivity.
@@ -481,17 +472,35 @@ Proof.
   intros _ _. exists p, r, b. repeat split; try assumption; try reflexivity. discriminate.
 Qed.
 
-(* 3: a failed URL binding answers 400 naming the field; the handler is not invoked *)
-Lemma raw_handle_reject_path rs rq p r b f : routed rs rq p r b ->
-  bind_path (sr_fields r) (rt_pathvars (sr_route r)) b [] = inr f ->
-  raw_handle rs rq = Ok (RRejected f).
-Proof. intros Hr H. now rewrite (raw_handle_routed rs rq p r b Hr), H. Qed.
+Lemma body_start_inr has_body ct body f : body_start has_body ct body = inr f ->
+  f = s "body" /\ has_body = true /\ exists g v, body = Some (g, v) /\ bfmt_eqb g (server_fmt ct) = false.
+Proof.
+  unfold body_start. destruct has_body; [|discriminate]. destruct body as [[g v]|]; [|discriminate].
+  destruct (bfmt_eqb g (server_fmt ct)) eqn:E; [discriminate|]. intros H. inversion H.
+  repeat split. now exists g, v.
+Qed.
 
-Lemma raw_handle_reject_query rs rq p r b m1 f : routed rs rq p r b ->
-  bind_path (sr_fields r) (rt_pathvars (sr_route r)) b [] = inl m1 ->
+(* 3: a body the server cannot read is reported first, as field "body" *)
+Lemma raw_handle_reject_body rs rq p r b f : routed rs rq p r b ->
+  raw_start r rq = inr f -> raw_handle rs rq = Ok (RRejected f) /\ f = s "body".
+Proof.
+  intros Hr H. rewrite (raw_handle_routed rs rq p r b Hr), H. split; [reflexivity|].
+  now apply body_start_inr in H as [H _].
+Qed.
+
+(* 3: a failed URL binding answers 400 naming the field; the handler is not invoked *)
+Lemma raw_handle_reject_path rs rq p r b m0 f : routed rs rq p r b ->
+  raw_start r rq = inl m0 ->
+  bind_path (sr_fields r) (rt_pathvars (sr_route r)) b m0 = inr f ->
+  raw_handle rs rq = Ok (RRejected f).
+Proof. intros Hr H0 H. now rewrite (raw_handle_routed rs rq p r b Hr), H0, H. Qed.
+
+Lemma raw_handle_reject_query rs rq p r b m0 m1 f : routed rs rq p r b ->
+  raw_start r rq = inl m0 ->
+  bind_path (sr_fields r) (rt_pathvars (sr_route r)) b m0 = inl m1 ->
   bind_query_raw (sr_fields r) (query_fields (sr_fields r)) (parse_query (rq_query rq)) m1 = inr f ->
   raw_handle rs rq = Ok (RRejected f).
-Proof. intros Hr H1 H2. now rewrite (raw_handle_routed rs rq p r b Hr), H1, H2. Qed.
+Proof. intros Hr H0 H1 H2. now rewrite (raw_handle_routed rs rq p r b Hr), H0, H1, H2. Qed.
 
 (* the URL conditions of a route: every path variable converts, every query field is absent and optional
    or converts *)
@@ -507,157 +516,140 @@ Lemma raw_handle_url_ok rs rq p r b : routed rs rq p r b ->
   raw_handle rs rq = Ok (RRejected (s "body")).
 Proof.
   intros Hr [Hp Hq]. rewrite (raw_handle_routed rs rq p r b Hr).
-  destruct (bind_path_complete _ b _ [] Hp) as [m1 ->].
-  destruct (bind_query_raw_complete (sr_fields r) _ _ m1 Hq) as [m2 ->].
-  destruct (rt_body (sr_route r)); [|left; now eexists].
-  destruct (rq_body rq) as [[f v]|]; [|left; now eexists].
-  destruct (bfmt_eqb f (server_fmt (rq_ct rq))); [left; now eexists|now right].
+  destruct (raw_start r rq) as [m0|f] eqn:E0.
+  - left. destruct (bind_path_complete _ b _ m0 Hp) as [m1 ->].
+    destruct (bind_query_raw_complete (sr_fields r) _ _ m1 Hq) as [m2 ->]. now eexists.
+  - right. apply body_start_inr in E0 as [-> _]. reflexivity.
 Qed.
 
-(* 3, the other direction: every rejection has one of the three reasons *)
+(* 3, the other direction: every rejection has one of the three reasons; the body is judged first *)
 Lemma raw_handle_rejected_inv rs rq n : raw_handle rs rq = Ok (RRejected n) ->
   exists p r b, routed rs rq p r b /\
-    ((In n (rt_pathvars (sr_route r)) /\ exists f, find_field (sr_fields r) n = Some f /\
-        (binding_of b n = [] \/ convert (f_kind f) (binding_of b n) = None)) \/
-     (exists f, In f (query_fields (sr_fields r)) /\ f_name f = n /\
-        query_fails (parse_query (rq_query rq)) f) \/
-     (n = s "body" /\ rt_body (sr_route r) = true /\
-      exists f v, rq_body rq = Some (f, v) /\ bfmt_eqb f (server_fmt (rq_ct rq)) = false)).
+    ((n = s "body" /\ rt_body (sr_route r) = true /\
+      exists f v, rq_body rq = Some (f, v) /\ bfmt_eqb f (server_fmt (rq_ct rq)) = false) \/
+     (exists m0, raw_start r rq = inl m0 /\
+        ((In n (rt_pathvars (sr_route r)) /\ exists f, find_field (sr_fields r) n = Some f /\
+            (binding_of b n = [] \/ convert (f_kind f) (binding_of b n) = None)) \/
+         (exists f, In f (query_fields (sr_fields r)) /\ f_name f = n /\
+            query_fails (parse_query (rq_query rq)) f)))).
 Proof.
   intros H. destruct (raw_handle_inv rs rq _ H) as [p [r [b Hr]]]; [discriminate|].
   exists p, r, b. split; [exact Hr|]. rewrite (raw_handle_routed rs rq p r b Hr) in H.
-  destruct (bind_path (sr_fields r) (rt_pathvars (sr_route r)) b []) as [m1|v] eqn:E1.
-  - destruct (bind_query_raw (sr_fields r) (query_fields (sr_fields r)) (parse_query (rq_query rq)) m1)
-      as [m2|v] eqn:E2.
-    + right. right. destruct (rt_body (sr_route r)); [|discriminate].
-      destruct (rq_body rq) as [[f v]|]; [|discriminate].
-      destruct (bfmt_eqb f (server_fmt (rq_ct rq))) eqn:Eb; [discriminate|]. inversion H.
-      repeat split. now exists f, v.
-    + right. left. inversion H. subst v. now apply (bind_query_raw_reject _ _ _ _ _ E2).
-  - left. inversion H. subst v. now apply (bind_path_reject _ _ _ _ _ E1).
+  destruct (raw_start r rq) as [m0|f] eqn:E0.
+  - right. exists m0. split; [reflexivity|].
+    destruct (bind_path (sr_fields r) (rt_pathvars (sr_route r)) b m0) as [m1|v] eqn:E1.
+    + destruct (bind_query_raw (sr_fields r) (query_fields (sr_fields r)) (parse_query (rq_query rq)) m1)
+        as [m2|v] eqn:E2; [discriminate|].
+      right. inversion H. subst v. now apply (bind_query_raw_reject _ _ _ _ _ E2).
+    + left. inversion H. subst v. now apply (bind_path_reject _ _ _ _ _ E1).
+  - left. inversion H. subst f. now apply body_start_inr in E0.
 Qed.
 
-(* ==== 1. the URL's values reach the handler ========================================================== *)
+(* ==== 1. the URL's values reach the handler, whatever the body says ================================== *)
 
-Definition body_silent (body : option (bfmt * mval)) (k : str) : Prop :=
-  match body with None => True | Some (_, v) => mget v k = None end.
-
-Lemma url_wins rs rq n saw c p r b m1 m2 :
+(* what the handler sees is the body's message with the path values, then the query values, bound on top *)
+Lemma url_wins rs rq n saw c p r b :
   raw_handle rs rq = Ok (RDispatched n saw) ->
-  defects_C02 rs rq = [] ->
   rq_path rq = c :: p ->
   find_route rs (rq_verb rq) (split_on slash p) = Some (r, b) ->
-  bind_path (sr_fields r) (rt_pathvars (sr_route r)) b [] = inl m1 ->
-  bind_query_raw (sr_fields r) (query_fields (sr_fields r)) (parse_query (rq_query rq)) m1 = inl m2 ->
   n = md_name (sr_md r) /\
-  (rq_body rq = None -> saw = m2) /\
-  forall k x, mget m2 k = Some x -> body_silent (rq_body rq) k -> mget saw k = Some x.
+  exists m0 m1,
+    raw_start r rq = inl m0 /\
+    bind_path (sr_fields r) (rt_pathvars (sr_route r)) b m0 = inl m1 /\
+    bind_query_raw (sr_fields r) (query_fields (sr_fields r)) (parse_query (rq_query rq)) m1 = inl saw.
 Proof.
-  intros H Hdef Hp Hf H1 H2.
-  unfold raw_handle in H. unfold defects_C02 in Hdef. rewrite Hp in *. cbv beta iota zeta in H, Hdef.
+  intros H Hp Hf.
+  unfold raw_handle in H. rewrite Hp in *. cbv beta iota zeta in H.
   destruct (negb (Ascii.eqb c slash)); [discriminate|].
   destruct (path_unescape (c :: p)); [|discriminate].
   destruct (negb (clean_segs (split_on slash p))); [discriminate|].
   rewrite Hf in *. destruct (negb (raw_modelled r)); [discriminate|].
-  rewrite H1, H2 in *.
-  destruct (rt_body (sr_route r)).
-  - destruct (rq_body rq) as [[f v]|].
-    + destruct (bfmt_eqb f (server_fmt (rq_ct rq))); [|discriminate]. inversion H; subst.
-      split; [reflexivity|]. split; [discriminate|].
-      intros k x Hk Hs. exfalso. unfold body_silent in Hs.
-      destruct (existsb (fun kv : str * fval => match mget saw (fst kv) with Some _ => false | None => true end) m2)
-        eqn:E; [discriminate|].
-      pose proof (existsb_false_forall _ _ E (k, x) (mget_In _ _ _ Hk)) as F. cbn [fst] in F.
-      rewrite Hs in F. discriminate.
-    + inversion H; subst. repeat split. intros k x Hk _. exact Hk.
-  - inversion H; subst. repeat split. intros k x Hk _. exact Hk.
+  change (body_start (rt_body (sr_route r)) (rq_ct rq) (rq_body rq)) with (raw_start r rq) in H.
+  destruct (raw_start r rq) as [m0|f] eqn:E0; [|discriminate].
+  destruct (bind_path (sr_fields r) (rt_pathvars (sr_route r)) b m0) as [m1|f] eqn:E1; [|discriminate].
+  destruct (bind_query_raw (sr_fields r) (query_fields (sr_fields r)) (parse_query (rq_query rq)) m1)
+    as [m2|f] eqn:E2; [|discriminate].
+  inversion H; subst. split; [reflexivity|]. exists m0, m1. repeat split; assumption.
 Qed.
 
-(* stronger form: on every key the body does not mention, the handler's message agrees with the URL's
-   (including keys the URL leaves unpopulated) *)
-Lemma url_wins_all rs rq n saw c p r b m1 m2 :
-  raw_handle rs rq = Ok (RDispatched n saw) ->
-  defects_C02 rs rq = [] ->
-  rq_path rq = c :: p ->
-  find_route rs (rq_verb rq) (split_on slash p) = Some (r, b) ->
-  bind_path (sr_fields r) (rt_pathvars (sr_route r)) b [] = inl m1 ->
-  bind_query_raw (sr_fields r) (query_fields (sr_fields r)) (parse_query (rq_query rq)) m1 = inl m2 ->
-  forall k, body_silent (rq_body rq) k -> mget saw k = mget m2 k.
+(* the starting message is the body (when the verb carries one), else empty *)
+Lemma raw_start_inl r rq m0 : raw_start r rq = inl m0 ->
+  m0 = (if rt_body (sr_route r) then match rq_body rq with Some (_, v) => v | None => [] end else []).
 Proof.
-  intros H Hdef Hp Hf H1 H2 k Hs.
-  destruct (url_wins rs rq n saw c p r b m1 m2 H Hdef Hp Hf H1 H2) as [_ [Hnone Hsome]].
-  destruct (mget m2 k) as [x|] eqn:E; [now apply Hsome|].
-  destruct (rq_body rq) as [[f v]|] eqn:Eb.
-  - unfold raw_handle in H. rewrite Hp in H. cbv beta iota zeta in H.
-    destruct (negb (Ascii.eqb c slash)); [discriminate|].
-    destruct (path_unescape (c :: p)); [|discriminate].
-    destruct (negb (clean_segs (split_on slash p))); [discriminate|].
-    rewrite Hf in H. destruct (negb (raw_modelled r)); [discriminate|].
-    rewrite H1, H2 in H. rewrite Eb in H. destruct (rt_body (sr_route r)).
-    + destruct (bfmt_eqb f (server_fmt (rq_ct rq))); [|discriminate]. inversion H; subst. exact Hs.
-    + inversion H; subst. exact E.
-  - rewrite (Hnone eq_refl). exact E.
+  unfold raw_start, body_start. destruct (rt_body (sr_route r)); [|intros H; now inversion H].
+  destruct (rq_body rq) as [[f v]|]; [|intros H; now inversion H].
+  destruct (bfmt_eqb f (server_fmt (rq_ct rq))); [intros H; now inversion H|discriminate].
 Qed.
 
 (* end to end, path variables: the handler sees the converted text of the path segment *)
-Lemma handler_sees_path_value rs rq n saw c p r b m1 m2 v f :
+Lemma handler_sees_path_value rs rq n saw c p r b v f :
   raw_handle rs rq = Ok (RDispatched n saw) ->
-  defects_C02 rs rq = [] ->
   rq_path rq = c :: p ->
   find_route rs (rq_verb rq) (split_on slash p) = Some (r, b) ->
-  bind_path (sr_fields r) (rt_pathvars (sr_route r)) b [] = inl m1 ->
-  bind_query_raw (sr_fields r) (query_fields (sr_fields r)) (parse_query (rq_query rq)) m1 = inl m2 ->
   NoDup (map f_name (query_fields (sr_fields r))) ->
   In v (rt_pathvars (sr_route r)) -> find_field (sr_fields r) v = Some f ->
   ~ In v (map f_name (query_fields (sr_fields r))) ->
-  body_silent (rq_body rq) v ->
   exists x, convert (f_kind f) (binding_of b v) = Some x /\ scalar_of saw f = x.
 Proof.
-  intros H Hdef Hp Hf H1 H2 Hnd Hv Hfd Hnq Hs.
+  intros H Hp Hf Hnd Hv Hfd Hnq.
+  destruct (url_wins rs rq n saw c p r b H Hp Hf) as [_ [m0 [m1 [_ [H1 H2]]]]].
   destruct (bind_path_vals _ b _ _ _ H1) as [_ V]. destruct (V v f Hv Hfd) as [x [_ [Hc Hx]]].
   destruct (find_field_some _ _ _ Hfd) as [_ Hname].
   exists x. split; [exact Hc|]. rewrite <- Hx.
-  rewrite <- (bind_query_raw_keeps _ _ _ _ _ f Hnd H2) by now rewrite Hname.
-  apply scalar_of_mget. rewrite Hname.
-  now apply (url_wins_all rs rq n saw c p r b m1 m2).
+  apply (bind_query_raw_keeps _ _ _ _ _ f Hnd H2). now rewrite Hname.
 Qed.
 
 (* end to end, singular query parameters: the handler sees the converted first occurrence *)
-Lemma handler_sees_query_value rs rq n saw c p r b m1 m2 f x xs :
+Lemma handler_sees_query_value rs rq n saw c p r b f x xs :
   raw_handle rs rq = Ok (RDispatched n saw) ->
-  defects_C02 rs rq = [] ->
   rq_path rq = c :: p ->
   find_route rs (rq_verb rq) (split_on slash p) = Some (r, b) ->
-  bind_path (sr_fields r) (rt_pathvars (sr_route r)) b [] = inl m1 ->
-  bind_query_raw (sr_fields r) (query_fields (sr_fields r)) (parse_query (rq_query rq)) m1 = inl m2 ->
   NoDup (map f_name (query_fields (sr_fields r))) ->
   In f (query_fields (sr_fields r)) -> is_repeated f = false ->
   query_values (parse_query (rq_query rq)) (qname f) = x :: xs ->
-  body_silent (rq_body rq) (f_name f) ->
   exists y, convert (f_kind f) x = Some y /\ scalar_of saw f = y.
 Proof.
-  intros H Hdef Hp Hf H1 H2 Hnd Hin Hr Hq Hs.
-  destruct (bind_query_raw_singular _ _ _ _ _ f x xs Hnd H2 Hin Hr Hq) as [y [Hc Hy]].
-  exists y. split; [exact Hc|]. rewrite <- Hy. apply scalar_of_mget.
-  now apply (url_wins_all rs rq n saw c p r b m1 m2).
+  intros H Hp Hf Hnd Hin Hr Hq.
+  destruct (url_wins rs rq n saw c p r b H Hp Hf) as [_ [m0 [m1 [_ [_ H2]]]]].
+  exact (bind_query_raw_singular _ _ _ _ _ f x xs Hnd H2 Hin Hr Hq).
 Qed.
 
-(* end to end, repeated query parameters: the handler sees every occurrence, converted, in order *)
-Lemma handler_sees_query_list rs rq n saw c p r b m1 m2 f x xs :
+(* end to end, repeated query parameters: the handler sees every occurrence, converted, in order
+   (and nothing the body may have put in that list) *)
+Lemma handler_sees_query_list rs rq n saw c p r b f x xs :
   raw_handle rs rq = Ok (RDispatched n saw) ->
-  defects_C02 rs rq = [] ->
   rq_path rq = c :: p ->
   find_route rs (rq_verb rq) (split_on slash p) = Some (r, b) ->
-  bind_path (sr_fields r) (rt_pathvars (sr_route r)) b [] = inl m1 ->
-  bind_query_raw (sr_fields r) (query_fields (sr_fields r)) (parse_query (rq_query rq)) m1 = inl m2 ->
   NoDup (map f_name (query_fields (sr_fields r))) ->
   In f (query_fields (sr_fields r)) -> is_repeated f = true ->
   query_values (parse_query (rq_query rq)) (qname f) = x :: xs ->
-  body_silent (rq_body rq) (f_name f) ->
   exists l, convert_all (f_kind f) (x :: xs) = Some l /\ mget saw (f_name f) = Some (FL l).
 Proof.
-  intros H Hdef Hp Hf H1 H2 Hnd Hin Hr Hq Hs.
+  intros H Hp Hf Hnd Hin Hr Hq.
+  destruct (url_wins rs rq n saw c p r b H Hp Hf) as [_ [m0 [m1 [_ [_ H2]]]]].
   destruct (bind_query_raw_repeated _ _ _ _ _ f x xs Hnd H2 Hin Hr Hq) as [l [Hc [Hm _]]].
-  exists l. split; [exact Hc|]. rewrite <- Hm.
-  now apply (url_wins_all rs rq n saw c p r b m1 m2).
+  now exists l.
+Qed.
+
+(* what the URL does not bind comes from the body: keys that are neither a path variable nor a query
+   field, and query fields absent from the query string *)
+Lemma handler_sees_body_elsewhere rs rq n saw c p r b :
+  raw_handle rs rq = Ok (RDispatched n saw) ->
+  rq_path rq = c :: p ->
+  find_route rs (rq_verb rq) (split_on slash p) = Some (r, b) ->
+  NoDup (map f_name (query_fields (sr_fields r))) ->
+  exists m0, raw_start r rq = inl m0 /\
+    (forall k, ~ In k (rt_pathvars (sr_route r)) -> ~ In k (map f_name (query_fields (sr_fields r))) ->
+       mget saw k = mget m0 k) /\
+    (forall f, In f (query_fields (sr_fields r)) -> ~ In (f_name f) (rt_pathvars (sr_route r)) ->
+       query_values (parse_query (rq_query rq)) (qname f) = [] -> mget saw (f_name f) = mget m0 (f_name f)).
+Proof.
+  intros H Hp Hf Hnd.
+  destruct (url_wins rs rq n saw c p r b H Hp Hf) as [_ [m0 [m1 [H0 [H1 H2]]]]].
+  exists m0. split; [exact H0|].
+  destruct (bind_path_vals _ b _ _ _ H1) as [K1 _].
+  destruct (bind_query_raw_vals _ _ _ _ _ Hnd H2) as [K2 V2]. split.
+  - intros k Hk1 Hk2. now rewrite (K2 k Hk2), (K1 k Hk1).
+  - intros f Hin Hnp Hq. pose proof (V2 f Hin) as G. unfold query_gives in G. rewrite Hq in G.
+    destruct G as [_ G]. now rewrite G, (K1 _ Hnp).
 Qed.
